@@ -296,6 +296,48 @@ CONFIG['C08'] = {'assumptions': ['ASCII-only media types and realms (strings.ToL
                   'net/http: Header.Set/Get, Request.BasicAuth, WriteHeader-once semantics of the recording ResponseWriter; fmt %q modelled for '
                   'printable ASCII']}
 
+CONFIG['C19'] = {'assumptions': ['ASCII only: strings.ToLower/ToUpper/EqualFold are modelled on ASCII; generators emit no non-ASCII bytes',
+                 'security definitions are non-null objects; scheme names are non-empty (a scheme literally named "" is indistinguishable from the '
+                 'anonymous alternative in the code)',
+                 'the exported fields API.DefaultConsumes/DefaultProduces are only set by NewAPI/WithJSONDefaults/WithoutJSONDefaults (hypothesis '
+                 'DefaultsRegistered; theorem build_defaults)',
+                 'registered method names hold no space (hypothesis MethodsAreTokens; theorem method_token_needed shows it is needed)',
+                 "basePath is empty or starts with '/' (Swagger 2.0)",
+                 "an operation that declares no produces at all (and an API without JSON defaults) has no well-formed request in the property's "
+                 'sense: the runtime then panics with "can\'t find a producer" when the handler returns data; modelled (class noproducer), outside '
+                 'the Spec'],
+ 'go_entry': 'untyped.NewAPI(doc)[.WithoutJSONDefaults()].Register*, (*API).Validate, middleware.NewContext(doc, api, nil).APIHandler + '
+             'Context.LookupRoute (route tables) + ServeHTTP',
+ 'model_fn': 'build / validate / verify / routeConsumers / routeProducers / authTables / handlerFor / serveClass',
+ 'partial': [],
+ 'quick_n': 20000,
+ 'rule': "generated swagger 2.0 descriptions (0-5 operations over 9 clean and 4 non-canonical path templates x 7 methods, base path in {'', '/', "
+         "'/api', '/api/', '/api/v1'}, global and per-operation consumes/produces among 7 media types, 0-3 security definitions, global and "
+         "per-operation requirements incl. anonymous, absent and empty) x registration sequences derived from the REAL analyzer's requirements "
+         '(exact 40%, 1-3 single omissions/additions/duplicates 50%, a whole category forgotten 10%; case variants of media types and methods in '
+         'half of the cases; shuffled call order; with and without JSON defaults). Every 5th case is the out-of-scope stream: upper-case / '
+         'parameterised / wildcard media types, dangling scheme names, case variants of scheme names and paths. Streams: V (Validate: ok or section '
+         '+ MissingRegistration + MissingSpecification exactly as returned), S (every third case: valid flag, route found, keys of route.Consumers / '
+         'route.Producers, Schemes and Authenticator keys per alternative, class of the answer to a well-formed request with Content-Type among the '
+         "operation's consumes and Accept among its produces). The analyzer's outputs travel as output fields and are the model's inputs; the driver "
+         'checks the hypotheses OpHyp on them. Non-trivial = everything except load errors and descriptions without operations (S).',
+ 'search_s': 60,
+ 'thorough_n': 60000,
+ 'thorough_seeds': 4,
+ 'trusted_base': ['reading of the property text into the Lean `Spec` (human step, RtVerif/Model/<id>.lean)',
+                  'correspondence check (differential: Go harness /verif/harness -> protocol lines -> compiled Lean driver rtdriver evaluating Model '
+                  'and Spec); coverage bounded by the generators',
+                  "factgen (go/ast extraction of constants/tables into RtVerif/Gen/Facts.lean) and the driver's line parser",
+                  'go-openapi/analysis '
+                  '(RequiredConsumes/RequiredProduces/RequiredSecuritySchemes/OperationMethodPaths/Operations/ConsumesFor/ProducesFor/SecurityRequirementsFor/SecurityDefinitionsForRequirements) '
+                  'and loads/spec: external; their outputs are model inputs constrained by `OpHyp`, which the driver re-checks on every S case',
+                  "Go maps are modelled by key lists with set semantics; Go's sort.Strings by a bytewise insertion sort",
+                  'the answer class of the S stream is modelled over simple descriptions, for validated APIs, unrouted operations and operations '
+                  "whose alternatives all have their authenticators (elsewhere C02's treatment of a scheme without authenticator decides); there it "
+                  'relies on (not proves) C06 (a declared parameter-free type is admitted), C07 (an exact Accept selects that offer), C02 '
+                  '(all-accepting authenticators of a complete alternative authenticate) and on denco routing of the instantiated path (C01/C05)',
+                  'stub consumers/producers/authenticators/handlers: the codecs themselves are not exercised']}
+
 # properties not claimed (with the reason) and hook commits in /repo (none so far: no hooks needed)
 NOT_APPLICABLE = {}
 HOOK_COMMITS = []
